@@ -840,5 +840,7 @@ func editedScript(c *verifsim.Chooser, text string) (string, string) {
 			}
 		}
 	}
-	return text + "\ng1 = \"edited\";\n", "a statement appended"
+	// (an integer: generated scripts double g1 in loops, which is harmless for
+	// numbers and exponential for strings)
+	return text + "\ng1 = 77;\n", "a statement appended"
 }
